@@ -19,7 +19,7 @@ from . import common
 
 ID = 'C09'
 LEVEL = 'exploration'
-RUNS = {'quick': 3000, 'thorough': 80000}
+RUNS = {'quick': 8000, 'thorough': 200000}
 SIM_TIME_UNIT = 'updates / evaluations'
 RULE = ('seeded generation of (specification, decomposition into 1-3 named sub-specifications and 0-3 declared constants incl. '
         'constants used as interval bounds, monitor kind, data, schedule); every update is a checked history; non-trivial = the '
